@@ -33,6 +33,7 @@ def run(ctx):
     _cs.general_rules(ctx, 'R7', ['writer.write', 'writer.write_simple', 'writer.write_multi', 'writer.partition_on_columns', 'writer.make_part_file', 'api.ParquetFile.write_row_groups', 'writer.write_common_metadata', 'writer.consolidate_categories', 'api.ParquetFile._dtypes', 'api.ParquetFile._set_attrs', 'writer.write_column', 'writer.make_row_group'])
     ar.single_pass_data_rule(ctx, 'R7.5')
     r77(ctx)
+    r712(ctx)
     from . import c10
     c10.r1010(ctx, 'R7.8')
 
@@ -62,3 +63,37 @@ def r77(ctx, rule='R7.7'):
         ctx.ob(rule, 'core.read_col:category-install-conditioned-on-installed-categories:%s' % norm(c)[:50], looks or private,
                '`%s` under %s: a later row group whose dictionary differs re-labels the codes of all earlier row groups' % (
                    norm(c)[:70], tests or 'no test of the installed categories'), core.loc(c))
+
+
+def r712(ctx, rule='R7.12'):
+    """categorical columns across appends: (a) the recorded number of categories is brought up to date from the chunks
+    whatever the spelling of the keys (bytes when parsed, str when built in memory), and every footer writer of an
+    appendable file consolidates before writing; (b) a categorical column written as non-nullable refuses missing values"""
+    import ast
+    from ..model import callee, norm, walk_no_nested, iter_child_stmts
+    wr = ctx.repo['writer']
+    f = wr.func('consolidate_categories')
+    cmps = [x for x in ast.walk(f) if isinstance(x, ast.Compare) and isinstance(x.left, ast.Attribute) and x.left.attr == 'key']
+    ctx.floor(rule, 'key comparisons in consolidate_categories', len(cmps), 2)
+    for x in cmps:
+        c = x.comparators[0]
+        both = isinstance(x.ops[0], ast.In) and isinstance(c, (ast.Tuple, ast.List, ast.Set)) and \
+            {type(e.value) for e in c.elts if isinstance(e, ast.Constant)} == {bytes, str}
+        tolerant = 'ensure_str(' in norm(x) and 'ignore_error=True' in norm(x)
+        ctx.ob(rule, 'writer.consolidate_categories:key-matched-in-both-spellings:%s' % norm(x)[:40], both or tolerant,
+               '`%s`: metadata built in memory carries str keys, parsed metadata bytes keys' % norm(x), wr.loc(x))
+    for q in ('write_simple', 'write_common_metadata'):
+        g = wr.func(q)
+        calls = [c for c in ast.walk(g) if isinstance(c, ast.Call) and callee(c) == 'consolidate_categories']
+        ctx.ob(rule, 'writer.%s:categories-consolidated-before-the-footer-is-written' % q, len(calls) >= 1,
+               'an append may bring more categories than the pandas metadata records', wr.loc(g))
+    h = wr.func('write_column')
+    raises = [r for r in walk_no_nested(h) if isinstance(r, ast.Raise) and 'not nullable' in norm(r)]
+    ok = False
+    if len(raises) == 1:
+        from ..cfg import CFG
+        cfg = CFG(h)
+        tests = [norm(e.test) for e, fld in cfg.enclosing_tests(raises[0]) if isinstance(e, ast.If)]
+        ok = any('cat.codes == -1' in t for t in tests) and any(t == 'has_nulls' for t in tests)
+    ctx.ob(rule, 'writer.write_column:missing-category-codes-refused-in-a-required-column', ok,
+           'code -1 of a REQUIRED categorical goes out as dictionary index 255 / 65535', wr.loc(h))
